@@ -12,7 +12,8 @@ import time
 import traceback
 
 SETTINGS_FILES = {
-    "entry.yaml": '- method_list: ["%unit_init"]\n',
+    # the second rule is restricted to one unit by name, like the stock rules for routes.py / views.py
+    "entry.yaml": '- method_list: ["%unit_init"]\n- unit_name: "main_mod.py"\n  method_list: ["helper"]\n',
     # parameters named alpha / beta / req are taint sources: call_stmt source rules never match on the pinned tree, a
     # parameter_decl rule does, so that the taint phase finds flows and writes its report
     "source.yaml": '- lang: python\n  rules:\n    - operation: parameter_decl\n      name: alpha\n    - operation: parameter_decl\n      name: beta\n'
